@@ -18,6 +18,7 @@ class Trip:
         self.I = self.S.I
         self.parse_def = parse_def
         self.cases = []       # (write case, write state, [(state, parser outcome value)])
+        self.arith = []       # failed overflow / division obligations met while reading the writer's output back
         if self.S.error:
             return
         for wc in self.S.cases:
@@ -31,7 +32,27 @@ class Trip:
                     self.I.unmodelled.append(("?", parse_def, str(ex)))
                     outs = []
                 live = [(s3, v) for s3, k, v in outs if k == "val" and solver.feasible(s3.pc)]
-                self.cases.append((wc, s2, live, list(self.I.unmodelled)))
+                self._collect_arith()
+                # what the writer itself could not be modelled on: the write log is then incomplete (fail closed)
+                self.cases.append((wc, s2, live, list(self.I.unmodelled) + list(wc.unmodelled) + list(getattr(self.S, "size_unmodelled", []))))
+
+    def flush_arith(self):
+        """report the failed arithmetic obligations collected so far (once each) to the rule's result"""
+        res = getattr(self, "res", None)
+        if res is None:
+            return
+        seen = self.__dict__.setdefault("_seen_a", set())
+        for o in self.arith:
+            k = (o.kind, o.fn, str(o.goal))
+            if k not in seen:
+                seen.add(k)
+                res.ob(False, o.kind, o.fn, o.goal, o.span, detail="reading the builder's output back may overflow here (debug build: panic, release "
+                       "build: wrap-around): the round trip is not the identity the rule reasons about", pc=o.pc, entry=self.B.wr)
+
+    def _collect_arith(self):
+        for o in self.I.obligations:
+            if not o.ok and (o.kind.startswith("overflow") or o.kind == "div-zero"):
+                self.arith.append(o)
 
     def method(self, adt, name):
         D = Disc(self.F)
@@ -44,12 +65,28 @@ class Trip:
         d = self.method(v.adt, name)
         if d is None:
             return None
-        return [(s2, r) for s2, k, r in self.I.inline(d, gen, s.clone(), [v]) if k == "val" and solver.feasible(s2.pc)]
+        n0 = len(self.I.obligations)
+        outs = self.I.inline(d, gen, s.clone(), [v])
+        for o in self.I.obligations[n0:]:
+            if not o.ok and (o.kind.startswith("overflow") or o.kind == "div-zero"):
+                self.arith.append(o)
+        self.flush_arith()
+        return [(s2, r) for s2, k, r in outs if k == "val" and solver.feasible(s2.pc)]
 
 
 def acceptance(res, T, label, rule="acceptance"):
     """every rejecting outcome of the parser is refuted on the writer's output"""
     n = 0
+    T.res = res
+    T.flush_arith()
+    # fail closed: a builder whose size calculation or writer could not be summarised has no round trip to look at
+    if T.S.error:
+        res.unmodelled(T.B.cs, T.S.error)
+    for wc in (T.S.cases if not T.S.error else []):
+        for sp, fn, what in wc.unmodelled:
+            res.unmodelled(fn, what, sp)
+        if not wc.outs:
+            res.ob(False, "acceptance", T.B.wr, f"{label}: the writer has an outcome to read back for every accepted configuration", pc=wc.size_state.pc)
     for wc, s2, live, unm in T.cases:
         for sp, fn, what in unm:
             res.unmodelled(fn, what, sp)
